@@ -36,6 +36,9 @@ pub enum Op {
     Delete { i: usize, a: usize, key: Vec<u8> },
     /// let the swarm work for a moment
     Pause { ms: u64 },
+    /// node `i` is shut down and started again from its directory (same key, same store), opens the
+    /// document and joins its peers again
+    Restart { i: usize },
 }
 
 pub struct C04Sys {
@@ -54,7 +57,14 @@ struct Node {
     addr: iroh::EndpointAddr,
 }
 
-async fn spawn_node(seed: u8) -> anyhow::Result<Node> {
+impl Node {
+    /// wait until the endpoint has let go of its sockets (the successor binds anew)
+    async fn endpoint_closed(&self) {
+        self.router.endpoint().close().await;
+    }
+}
+
+async fn spawn_node(seed: u8, dir: &std::path::Path) -> anyhow::Result<Node> {
     let endpoint = Endpoint::builder(presets::Minimal)
         .secret_key(iroh::SecretKey::from_bytes(&[seed; 32]))
         .bind()
@@ -62,7 +72,7 @@ async fn spawn_node(seed: u8) -> anyhow::Result<Node> {
         .map_err(|e| anyhow::anyhow!("bind: {e}"))?;
     let gossip = iroh_gossip::net::Gossip::builder().spawn(endpoint.clone());
     let blobs = iroh_blobs::store::mem::MemStore::new();
-    let docs = Docs::memory().spawn(endpoint.clone(), (*blobs).clone(), gossip.clone()).await?;
+    let docs = Docs::persistent(dir.to_path_buf()).spawn(endpoint.clone(), (*blobs).clone(), gossip.clone()).await?;
     let router = Router::builder(endpoint.clone())
         .accept(iroh_blobs::ALPN, iroh_blobs::BlobsProtocol::new(&blobs, None))
         .accept(iroh_docs::ALPN, docs.clone())
@@ -110,7 +120,7 @@ impl Property for C04Sys {
         false
     }
     fn rule(&self) -> String {
-        "WHOLE-STACK PATH: 2-3 real docs nodes (endpoint, router, gossip, blobs, live actor) joined in a star or a chain over the loopback interface; 2-12 writes and prefix deletions through the client API on arbitrary nodes with increasing clocks, pauses in between; at quiescence (waited for; forced once by a round of explicit syncs if needed) every node is compared with the join of everything written; every observed intermediate state must lie inside the set of written entries; non-trivial = writes on at least two nodes".into()
+        "WHOLE-STACK PATH: 2-3 real docs nodes (endpoint, router, gossip, blobs, live actor) joined in a star or a chain over the loopback interface; 2-12 writes and prefix deletions through the client API on arbitrary nodes with increasing clocks, pauses and restarts of a node from its directory (persistent store) in between; at quiescence (waited for; forced once by a round of explicit syncs if needed) every node is compared with the join of everything written; every observed intermediate state must lie inside the set of written entries; non-trivial = writes on at least two nodes".into()
     }
     fn corpus(&self) -> Vec<(String, Vec<Op>)> {
         vec![(
@@ -122,7 +132,9 @@ impl Property for C04Sys {
                 Op::Pause { ms: 200 },
                 Op::Write { i: 1, a: 0, key: b"ab".to_vec(), c: 2 },
                 Op::Delete { i: 2, a: 0, key: b"a".to_vec() },
+                Op::Restart { i: 1 },
                 Op::Write { i: 0, a: 2, key: b"".to_vec(), c: 1 },
+                Op::Write { i: 1, a: 1, key: b"z".to_vec(), c: 0 },
             ],
         )]
     }
@@ -134,6 +146,7 @@ impl Property for C04Sys {
             ops.push(match rng.below(8) {
                 0..=4 => Op::Write { i, a: rng.below(3), key: gen_key(rng), c: rng.below(3) },
                 5..=6 => Op::Delete { i, a: rng.below(3), key: gen_key(rng) },
+                7 if rng.chance(1, 2) => Op::Restart { i },
                 _ => Op::Pause { ms: *rng.pick(&[20u64, 100, 300]) },
             });
         }
@@ -152,9 +165,10 @@ impl Property for C04Sys {
         iroh_docs::verif::set_clock_micros(Some(clock));
         let res: anyhow::Result<Vec<Line>> = rt.block_on(async {
             let mut lines = vec![Line::model("new 1", "ok")];
+            let dirs: Vec<tempfile::TempDir> = (0..n).map(|_| tempfile::tempdir()).collect::<Result<_, _>>()?;
             let mut nodes = vec![];
             for i in 0..n {
-                nodes.push(spawn_node(0x51 + i as u8).await?);
+                nodes.push(spawn_node(0x51 + i as u8, dirs[i].path()).await?);
             }
             let mut docs: Vec<Doc> = vec![];
             for node in &nodes {
@@ -175,6 +189,17 @@ impl Property for C04Sys {
                 match op {
                     Op::Cfg { .. } => {}
                     Op::Pause { ms } => tokio::time::sleep(Duration::from_millis(*ms)).await,
+                    Op::Restart { i } if *i < n => {
+                        let old = nodes.remove(*i);
+                        old.router.shutdown().await.ok();
+                        old.endpoint_closed().await;
+                        let node = spawn_node(0x51 + *i as u8, dirs[*i].path()).await?;
+                        let doc = node.api.open(nsid).await?.ok_or_else(|| anyhow::anyhow!("document lost by the restart"))?;
+                        let peers: Vec<_> = (0..n - 1).map(|j| nodes[j].addr.clone()).collect();
+                        doc.start_sync(peers).await?;
+                        nodes.insert(*i, node);
+                        docs[*i] = doc;
+                    }
                     Op::Write { i, a, key, c } if *i < n => {
                         clock += 1000;
                         iroh_docs::verif::set_clock_micros(Some(clock));
